@@ -16,6 +16,9 @@ func VP_C15_crash() {
 	}
 	chunks := vpArbitraryState(K, S)
 	img := vpBuild(chunks, S)
+	if vp.Choice(2) == 1 {
+		img = vpBuildUnpadded(chunks, S) // the file as earlier writes left it: not padded
+	}
 	before := append([]byte{}, img...)
 	var mem *vpMemFile
 	var f interface {
@@ -39,7 +42,7 @@ func VP_C15_crash() {
 	}
 	ti := vp.Choice(nc)
 	x, z := vpCoords[ti][0], vpCoords[ti][1]
-	lens := []int{1, 4093, 4092, 8189}[:2+2*vp.Tier()]
+	lens := []int{1, 4093, 4092, 8189}[:3+vp.Tier()] // one sector, two, exactly one, (thorough) three
 	n := lens[vp.Choice(len(lens))]
 	data := make([]byte, n)
 	data[0], data[n-1] = vp.Byte(), vp.Byte()
